@@ -2323,6 +2323,7 @@ class FuncLambda(ValueFunc):
     def __init__(self, lexicalEnv):
         super().__init__("lambda")
         self.lexicalEnv = lexicalEnv
+        self.pos = None
         self.argNames = []
         self.defValues = []
         self.body = None
